@@ -876,4 +876,49 @@ theorem ipower_neg_inverse (m : Mono) (hm : m.Unitary) (k : Int) :
   rw [← ipower_add m hm, show (-k + k : Int) = 0 by omega]
   simp [ipower, npow]
 
+/-! ### `embed` preserves unitarity -/
+theorem embed_unitary (m : Mono) (loc radixes : List Nat) (hm : m.Unitary) (hloc : loc.Nodup)
+    (hlt : ∀ q ∈ loc, q < radixes.length) (hml : m.length = dim (loc.map (radixes.getD · 1))) :
+    (embed m loc radixes).Unitary := by
+  rw [unitary_iff_at, embed_length]
+  have hsc : ∀ c, c < dim radixes →
+      undigits (subRadixes loc radixes) (loc.map (fun q => (digits radixes c).getD q 0)) < m.length :=
+    fun c hc => by rw [hml]; exact embed_sc_lt loc radixes c hc
+  refine ⟨fun c hc => ?_, fun c c' hc hc' h => ?_⟩
+  · refine ⟨(embed_row_digits m loc radixes hloc hlt c hc).1, ?_⟩
+    rw [embed_at_eq m loc radixes c hc]
+    exact hm.phase_lt _ (hsc c hc)
+  · obtain ⟨_, h1⟩ := embed_row_digits m loc radixes hloc hlt c hc
+    obtain ⟨_, h2⟩ := embed_row_digits m loc radixes hloc hlt c' hc'
+    rw [h] at h1
+    rw [h1] at h2
+    -- `h2 : setDigits ds loc s = setDigits ds' loc s'`
+    have hdl : ∀ c, ∀ q ∈ loc, q < (digits radixes c).length := by
+      intro c q hq; rw [digits_length]; exact hlt q hq
+    have hsl : ∀ x, (digits (subRadixes loc radixes) x).length = loc.length := by
+      intro x; rw [digits_length]; simp
+    have hread := congrArg (fun l => loc.map (fun q => l.getD q 0)) h2
+    rw [read_setDigits loc _ _ hloc (hdl c) (hsl _), read_setDigits loc _ _ hloc (hdl c') (hsl _)] at hread
+    have hrow := congrArg (undigits (subRadixes loc radixes)) hread
+    rw [undigits_digits _ _ (by rw [← hml]; exact hm.row_lt _ (hsc c hc)),
+      undigits_digits _ _ (by rw [← hml]; exact hm.row_lt _ (hsc c' hc'))] at hrow
+    have hsceq := hm.inj _ _ (hsc c hc) (hsc c' hc') hrow
+    have hr := pos_of_dim_pos radixes (Nat.lt_of_le_of_lt (Nat.zero_le _) hc)
+    have hrd := congrArg (digits (subRadixes loc radixes)) hsceq
+    rw [digits_undigits' _ _ (digitsOK_read loc radixes _ (digitsOK_digits radixes c hr)),
+      digits_undigits' _ _ (digitsOK_read loc radixes _ (digitsOK_digits radixes c' hr))] at hrd
+    have e1 := setDigits_setDigits loc (digits radixes c)
+      (digits (subRadixes loc radixes) (m.at (undigits (subRadixes loc radixes)
+        (loc.map (fun q => (digits radixes c).getD q 0)))).1)
+      (loc.map (fun q => (digits radixes c).getD q 0)) hloc (hdl c) (by simp)
+    have e2 := setDigits_setDigits loc (digits radixes c')
+      (digits (subRadixes loc radixes) (m.at (undigits (subRadixes loc radixes)
+        (loc.map (fun q => (digits radixes c').getD q 0)))).1)
+      (loc.map (fun q => (digits radixes c').getD q 0)) hloc (hdl c') (by simp)
+    rw [setDigits_self] at e1 e2
+    rw [h2, hrd, e2] at e1
+    have := congrArg (undigits radixes) e1
+    rw [undigits_digits radixes c hc, undigits_digits radixes c' hc'] at this
+    exact this.symm
+
 end BqVerif.Kron
